@@ -160,6 +160,18 @@ func (b *termBuilder) build(v ssa.Value, d int) *Term {
 		return &Term{Op: "addr", Sym: name, Owner: owner, Args: []*Term{b.of(x.X, d+1)}}
 	case *ssa.UnOp:
 		if x.Op == token.MUL {
+			// a variable captured by a function literal that runs as part of its creator
+			// (called on the spot, or handed to a new helper that calls it): the literal reads
+			// what the creator stored, when that is a single assignment
+			if fv, ok := x.X.(*ssa.FreeVar); ok && isNewHelper(fv.Parent()) {
+				if bnd := bindingOf(fv); bnd != nil {
+					if al, ok := bnd.(*ssa.Alloc); ok {
+						if sv := uniqueStore(al); sv != nil {
+							return b.of(sv, d+1)
+						}
+					}
+				}
+			}
 			in := b.of(x.X, d+1)
 			if in.Op == "addr" {
 				return &Term{Op: "field", Sym: in.Sym, Owner: in.Owner, Args: in.Args}
@@ -1059,4 +1071,30 @@ func valueOrigin(v ssa.Value) ssa.Value {
 		return stripConv(t.Orig)
 	}
 	return stripConv(v)
+}
+
+// bindingOf: the value the creator of a function literal bound to free variable fv.
+func bindingOf(fv *ssa.FreeVar) ssa.Value {
+	fn := fv.Parent()
+	par := fn.Parent()
+	if par == nil {
+		return nil
+	}
+	idx := -1
+	for i, f := range fn.FreeVars {
+		if f == fv {
+			idx = i
+		}
+	}
+	if idx < 0 {
+		return nil
+	}
+	for _, blk := range par.Blocks {
+		for _, in := range blk.Instrs {
+			if mc, ok := in.(*ssa.MakeClosure); ok && mc.Fn == ssa.Value(fn) && idx < len(mc.Bindings) {
+				return mc.Bindings[idx]
+			}
+		}
+	}
+	return nil
 }
